@@ -221,3 +221,39 @@ pub unsafe extern "C" fn mmap(addr: *mut libc::c_void, len: libc::size_t, prot: 
 pub unsafe extern "C" fn mmap64(addr: *mut libc::c_void, len: libc::size_t, prot: libc::c_int, flags: libc::c_int, fd: libc::c_int, off: libc::off_t) -> *mut libc::c_void {
     mmap_impl(addr, len, prot, flags, fd, off)
 }
+
+thread_local! {
+    static FAIL_READ: Cell<(i32, u32)> = const { Cell::new((0, 0)) };
+    static FAIL_READ_PATH: std::cell::RefCell<Option<std::path::PathBuf>> = const { std::cell::RefCell::new(None) };
+}
+pub static READ_FAILURES_INJECTED: AtomicU64 = AtomicU64::new(0);
+
+/// The next `times` read() calls of the calling thread on a descriptor open on `path` fail with
+/// `errno` (times = 0: stop failing): a device-backed sysfs attribute that is busy, a process
+/// short of memory ...
+pub fn fail_reads_of(path: &str, errno: i32, times: u32) {
+    FAIL_READ.with(|c| c.set((errno, times)));
+    // (descriptors are matched through /proc/self/fd, which shows the path with symlinks resolved)
+    FAIL_READ_PATH.with(|p| *p.borrow_mut() = if times > 0 { Some(std::fs::canonicalize(path).unwrap_or_else(|_| std::path::PathBuf::from(path))) } else { None });
+}
+
+/// # Safety
+/// Same contract as read(2).
+#[cfg(not(miri))]
+#[no_mangle]
+pub unsafe extern "C" fn read(fd: libc::c_int, buf: *mut libc::c_void, n: libc::size_t) -> libc::ssize_t {
+    let (e, left) = FAIL_READ.try_with(|c| c.get()).unwrap_or((0, 0));
+    if left > 0 {
+        let mut link = [0u8; 256];
+        let name = format!("/proc/self/fd/{}\0", fd);
+        let k = libc::syscall(libc::SYS_readlink, name.as_ptr(), link.as_mut_ptr(), link.len());
+        let hit = k > 0 && FAIL_READ_PATH.with(|p| p.borrow().as_ref().map(|p| p.as_os_str().as_encoded_bytes() == &link[..k as usize]).unwrap_or(false));
+        if hit {
+            FAIL_READ.with(|c| c.set((e, left - 1)));
+            READ_FAILURES_INJECTED.fetch_add(1, Ordering::Relaxed);
+            set_errno(e);
+            return -1;
+        }
+    }
+    libc::syscall(libc::SYS_read, fd as libc::c_long, buf, n) as libc::ssize_t
+}
